@@ -298,6 +298,7 @@ class TrackedDict(TrackedValue, dict):
     pop = tracked_method(dict.pop)
     popitem = tracked_method(dict.popitem)
     clear = tracked_method(dict.clear)
+    __ior__ = tracked_method(dict.__ior__)
     def get_untracked(self):
         return {key: val.get_untracked() if isinstance(val, TrackedValue) else val
                 for key, val in self.items()}
@@ -318,6 +319,8 @@ class TrackedList(TrackedValue, list):
     reverse = tracked_method(list.reverse)
     sort = tracked_method(list.sort)
     clear = tracked_method(list.clear)
+    __iadd__ = tracked_method(list.__iadd__)
+    __imul__ = tracked_method(list.__imul__)
     def get_untracked(self):
         return [val.get_untracked() if isinstance(val, TrackedValue) else val for val in self]
 
@@ -335,6 +338,9 @@ class TrackedArray(TrackedList):
     def extend(self, items):
         items = [validate_item(self.item_type, item) for item in items]
         TrackedList.extend(self, items)
+    def __iadd__(self, items):
+        self.extend(items)
+        return self
     def append(self, item):
         item = validate_item(self.item_type, item)
         TrackedList.append(self, item)
